@@ -218,6 +218,27 @@ func c08Run(c *fw.Ctx, b fw.Batch) {
 				ls = append(ls, uint32(L))
 			}
 			c08JudgeDoc(c, t, "long", d, ls, true)
+			// the limit is changed while DetectReader reads (the reader calls SetLimit in its first Read):
+			// the document is longer than both limits, so under either one it is JSON
+			for k := 0; k < 6; k++ {
+				l1 := uint32(1 + r.Intn(len(d)-1))
+				l2 := []uint32{0, uint32(1 + r.Intn(len(d)-1)), 1 << 20, uint32(len(d) + 5)}[r.Intn(4)]
+				var ch lib.Chain
+				key := fw.InputKey(d, l1, fmt.Sprintf("DetectReader/limit-changes-to-%d", l2))
+				pl := fw.MkInCase("long-limit-change", d, l1, "DetectReader", fmt.Sprint(l2))
+				if !c.Guard(key, func() any { return pl }, func() {
+					mimetype.SetLimit(l1)
+					m, _ := mimetype.DetectReader(&c05Reader{b: d, s: c05Sched{Chunk: 512, ErrAt: -1, SetLimitTo: int64(l2)}, sentAt: -1})
+					ch = lib.ChainOf(m)
+				}) {
+					continue
+				}
+				c.Eval(1)
+				c.Count("reader_detections_with_limit_change", 1)
+				if v, why := jsonFamilyOrException(t, ch); v == "miss" {
+					c.Violate("json-not-recognised", key, fmt.Sprintf("valid %d-byte JSON document read through DetectReader while the limit changes from %d to %d is reported as %s: %s", len(d), l1, l2, ch, why), pl)
+				}
+			}
 		}
 	case "ladder":
 		// depth ladders up to the documented cap of 4096
